@@ -296,6 +296,33 @@ class Discharger:
                 return "dominating non-emptiness test of %s" % recv
         return None
 
+    def d_none_deref(self, info, s, facts):
+        nm = s.node.value.id
+        if ("notnone", nm) in facts or ("truthy", nm) in facts:
+            return "dominating test that %s is not None" % nm
+        # nearest dominating definition assigns a value that cannot be None
+        stmt = s.node
+        while stmt is not None and not isinstance(stmt, ast.stmt):
+            stmt = info.pm.get(id(stmt))
+        if stmt is not None:
+            d = self.dominating_def(info, nm, stmt)
+            if d is not None:
+                if isinstance(d, ast.Call):
+                    site = {id(x.node): x for x in self.ctx.cg.sites(info.f, info.consts)}.get(id(d))
+                    opt = self.esc.optional_returning()
+                    if site is not None and site.callees and not any(g.qual in opt for g in site.callees):
+                        t = info.type_of(d)
+                        if t and not any(a[0] == "none" for a in t):
+                            return "assigned from a call that never returns None"
+                    if site is not None and not site.callees and isinstance(d.func, ast.Attribute) and d.func.attr in ("popleft", "pop"):
+                        t = info.type_of(d)
+                        if t and not any(a[0] in ("none", "any") for a in t):
+                            return "element of a container that holds no None"
+                elif isinstance(d, (ast.Tuple, ast.List, ast.Dict, ast.Constant, ast.BinOp, ast.JoinedStr)) and \
+                        not (isinstance(d, ast.Constant) and d.value is None):
+                    return "assigned a non-None value"
+        return None
+
     def d_next(self, info, s, facts):
         return None
 
